@@ -235,6 +235,13 @@ def gen_case(rng):
         want = exp_sum + avail + rng.choice([1, ADA, 50 * ADA])
     else:
         want = exp_sum + int(avail * rng.choice([0.02, 0.1, 0.25, 0.4, 0.6, 0.8])) + rng.choice([0, 1, ADA])
+    if mode == 'need' and poolset and rng.random() < 0.3:
+        # aimed at a selection boundary: the j largest pool UTxOs cover the request, the fee estimated before selection and
+        # the minimum change by a few thousand lovelace more or less (what build() does when the final fee tips the balance)
+        coins = sorted((coin_of(ui) for ui in poolset), reverse=True)
+        j = rng.randint(1, len(coins))
+        want = (exp_sum + sum(coins[:j]) - rng.choice([165000, 168000, 170000, 172000, 175000])
+                - rng.choice([978370, 857690, 969750]) + rng.randrange(-6000, 6001, 50))
     want = max(want, ADA)
     if family == 'improve':                           # a fraction of the pool: the improvement phases have room
         want = exp_sum + int(avail * rng.choice([0.2, 0.25, 0.33, 0.4]))
